@@ -29,6 +29,25 @@ def tlc_check(ctx, module, cfg, *, min_states=50, coverage=True, need_actions=()
 
 
 def dump_states(ctx, module, cfg):
+    """All states of a (small) config, parsed. VERIF_DUMP_CACHE=<dir> lets sub-steps of one check run share dumps."""
+    import os
+    import pickle
+
+    cache = os.environ.get("VERIF_DUMP_CACHE")
+    cpath = os.path.join(cache, f"{module}-{cfg}.pickle") if cache else None
+    if cpath and os.path.exists(cpath):
+        with open(cpath, "rb") as fh:
+            return pickle.load(fh)
+    sts = _dump_states(ctx, module, cfg)
+    if cpath and sts:
+        tmp = cpath + f".{os.getpid()}"
+        with open(tmp, "wb") as fh:
+            pickle.dump(sts, fh)
+        os.replace(tmp, cpath)
+    return sts
+
+
+def _dump_states(ctx, module, cfg):
     r = tlc.run(module, cfg, dump=True)
     ctx.add_tlc(cfg, r, cfg_constants(cfg))
     if r.violated:
